@@ -175,6 +175,17 @@ def run_property(prop, tier="quick", replay=None, out=sys.stdout):
         hit = [v for v in cx.violations if v["key"] == want]
         print("REPLAY key=%s %s" % (want, "STILL-VIOLATED" if hit else "not reproduced on the current tree"), file=out)
         rc = 1 if hit else 0
+    # thorough: the checker checks itself - seeded mutants, silent twins and the kept independent seeded changes of this property
+    selftest = None
+    if tier == "thorough" and not os.environ.get("CS_NO_EVIDENCE") and not replay:
+        sys.path.insert(0, os.path.join(VERIF, "tools"))
+        import selftest as ST
+        selftest = ST.selftest(prop, verbose=False)
+        for r in selftest["mutants"] + selftest["seeded"]:
+            print("SELFTEST %s %s %s" % (prop, r["id"], r["status"]), file=out)
+        if not selftest["ok"]:
+            print("INFRA-ERROR property=%s the checker's self-test failed (a seeded breakage was not reported, or a behaviour-preserving twin alarmed): this is a defect of the check, not of /repo" % prop, file=out)
+            rc = 3 if rc == 0 else rc
     # evidence
     nontriv = len({i["key"] for i in cx.instances if i["sites"]})
     samples = []
@@ -214,6 +225,7 @@ def run_property(prop, tier="quick", replay=None, out=sys.stdout):
             "notes": cx.notes,
             "tree_hash": facts.tree_hash,
             "units": facts.unit_names,
+            "selftest": selftest,
         },
         "assumptions": ["the object store's conditional PUT is atomic", "documented semantics of std / tokio / dashmap / arrow / datafusion calls",
                         "cfg(test) code is not part of the analysed program"],
